@@ -553,6 +553,43 @@ pub fn ignored_entry(world: &World, top: &str, path: &str, only: Option<&[String
     false
 }
 
+/// Known finding KF9, modelled exactly: while walking a directory argument `root` other than the
+/// working directory, the `ignore` crate matches ignore files found *above* `root` against
+/// `<root>/<entry name>` — every intermediate directory between `root` and the entry is
+/// stripped.  Ignore files at or below `root` are matched correctly.
+pub fn ignored_entry_mangled(world: &World, top: &str, root: &str, path: &str) -> bool {
+    let comps: Vec<&str> = path.split('/').filter(|s| !s.is_empty()).collect();
+    let topc: Vec<&str> = top.split('/').filter(|s| !s.is_empty()).collect();
+    let rootc: Vec<&str> = root.split('/').filter(|s| !s.is_empty()).collect();
+    for end in (rootc.len() + 1)..=comps.len() {
+        let prefix = &comps[..end];
+        let is_dir = end < comps.len();
+        let mut mangled: Vec<&str> = rootc.clone();
+        mangled.push(prefix[end - 1]);
+        let mut decided = None;
+        let mut d = end - 1;
+        loop {
+            let base = &comps[..d];
+            let base_s = base.join("/");
+            if let Some(bytes) = world.files.get(&join(&base_s, ".styluaignore")) {
+                let target: &[&str] = if d < rootc.len() { &mangled } else { prefix };
+                if let Some(dec) = ignore_file_decision(&ignore_lines(bytes), base, target, is_dir) {
+                    decided = Some(dec);
+                    break;
+                }
+            }
+            if d == topc.len() {
+                break;
+            }
+            d -= 1;
+        }
+        if decided == Some(true) {
+            return true;
+        }
+    }
+    false
+}
+
 fn is_hidden_below(root: &str, path: &str) -> bool {
     // components strictly below the walk root
     let rest = if root.is_empty() { path } else { path.strip_prefix(root).map(|r| r.trim_start_matches('/')).unwrap_or(path) };
@@ -694,8 +731,11 @@ pub fn select(world: &World, opts: &Opts) -> Selection {
             if root_hidden {
                 sel.ambiguous = Some(format!("directory argument {arg} is hidden"));
             }
+            // KF9: the walker matches ignore files found above a directory argument against a
+            // mangled path (`<some root>/<entry name>`; with several roots the first root's
+            // name can be used for all of them), which only matters for patterns that contain a
+            // slash.  Any file under such an argument is a candidate.
             let slash_pattern_above = p != world.cwd && {
-                // ignore files in cwd ..= parent(p)
                 let mut found = false;
                 let mut cur = parent_of(&p);
                 while let Some(d) = cur {
@@ -712,9 +752,6 @@ pub fn select(world: &World, opts: &Opts) -> Selection {
                 found
             };
             for f in files_under(world, &p) {
-                if slash_pattern_above {
-                    sel.kf9_candidates.insert(f.clone());
-                }
                 let name = file_name(f);
                 if name == ".styluaignore" {
                     // an ignore file is never a Lua file; fall through to the glob test
@@ -737,6 +774,9 @@ pub fn select(world: &World, opts: &Opts) -> Selection {
                         !pruned && user_glob_verdict(gs, &world.cwd, f, false) == GlobVerdict::Whitelisted
                     }
                 };
+                if slash_pattern_above {
+                    sel.kf9_candidates.insert(f.clone());
+                }
                 if glob_ok && !hidden && !ignored {
                     sel.selected.insert(f.clone());
                 } else if glob_ok && opts.globs.is_some() && (hidden || ignored) {
